@@ -65,6 +65,7 @@ fn do_case(kvs: &[Kv], geom: Geom, st: &mut Stats, rep: &Reporter) {
     st.states += 1;
     match run_case(kvs, geom) {
         Ok(n) => {
+            crate::ev::obs(crate::ev::hash_kvs(kvs));
             st.evals += n;
             st.transitions += 3 * n;
         }
